@@ -353,6 +353,23 @@ func TestE3Leader(t *testing.T) {
 					synctest.Wait()
 				}
 				mnode = chosen.final
+				// reads a pass took and never answered (it lost leadership in between) stay unresolved for good
+				{
+					held := map[string]bool{}
+					for _, ev := range chosen.events {
+						if strings.HasPrefix(ev, "take:") {
+							held[strings.TrimPrefix(ev, "take:")] = true
+						} else if strings.HasPrefix(ev, "ok:read:") || strings.HasPrefix(ev, "err:read:") {
+							delete(held, ev[strings.Index(ev, ":")+1:])
+						}
+					}
+					for _, f := range futs {
+						if (f.kind == "lin" || f.kind == "lease") && held["read:"+strconv.FormatUint(f.key, 10)] && !f.resolvedSeen() {
+							f.markSeen()
+							rep.Hit("read-orphaned-by-interrupted-pass")
+						}
+					}
+				}
 				for c, r := range chosenRounds {
 					var round, at int
 					fmt.Sscanf(r, "%d@%d", &round, &at)
@@ -429,20 +446,34 @@ func exploreCascade(ask func(string) []string, now int64, sec []string) []cascad
 	// busy: the read-only loop is answering the reads it collected, with the mutex released around
 	// every state machine call: a wake-up that arrives meanwhile finds nobody waiting and is lost
 	// (the read it would have served stays pending until the next round signals again)
+	// rest: reads the pass has taken out of the pending table but not answered yet. The loop answers them
+	// one by one with the mutex released around each state machine call, so the other loops can run
+	// in between; when it gets the mutex back and the node is no longer leader it leaves the loop and
+	// the reads it still holds are answered by nobody (their futures time out).
 	var rec func(o cascadeOutcome, sigC, sigA, sigR bool, depth int)
-	var recB func(o cascadeOutcome, sigC, sigA, sigR, busy bool, depth int)
-	rec = func(o cascadeOutcome, sigC, sigA, sigR bool, depth int) { recB(o, sigC, sigA, sigR, false, depth) }
-	recB = func(o cascadeOutcome, sigC, sigA, sigR, busy bool, depth int) {
-		if len(out) >= 96 {
+	var recB func(o cascadeOutcome, sigC, sigA, sigR, busy bool, rest []string, depth int)
+	rec = func(o cascadeOutcome, sigC, sigA, sigR bool, depth int) { recB(o, sigC, sigA, sigR, false, nil, depth) }
+	recB = func(o cascadeOutcome, sigC, sigA, sigR, busy bool, rest []string, depth int) {
+		if len(out) >= 400 {
 			return
+		}
+		clone := func() cascadeOutcome {
+			return cascadeOutcome{o.final, append([]string{}, o.states...), append([]string{}, o.effs...), append([]string{}, o.spawns...), append([]string{}, o.events...)}
 		}
 		if busy {
 			// the pass ends now ...
-			recB(o, sigC, sigA, sigR, false, depth+1)
+			e := clone()
+			if len(rest) > 0 && ParseKV(e.final)["role"] == "L" {
+				e.events = append(e.events, rest...)
+			}
+			recB(e, sigC, sigA, sigR, false, nil, depth+1)
 			// ... or later, after other loops ran; what they signal to the read-only loop is lost
 			sigR = false
 		}
 		if (!sigC && !sigA && !sigR) || depth > 40 {
+			if busy && len(rest) > 0 {
+				return // covered by "the pass ends now"
+			}
 			key := o.final + "|" + strings.Join(o.events, ",") + "|" + multiset(strings.Join(o.effs, ","))
 			if !seen[key] {
 				seen[key] = true
@@ -450,16 +481,13 @@ func exploreCascade(ask func(string) []string, now int64, sec []string) []cascad
 			}
 			return
 		}
-		clone := func() cascadeOutcome {
-			return cascadeOutcome{o.final, append([]string{}, o.states...), append([]string{}, o.effs...), append([]string{}, o.spawns...), append([]string{}, o.events...)}
-		}
 		if sigC {
 			n := clone()
 			r := ask(fmt.Sprintf("COMMIT | %d | %s", now, n.final))
 			n.final = r[0]
 			n.states = append(n.states, r[0])
 			collect(&n, r[1], len(n.states)-1)
-			recB(n, hasEff(r[1], "sigC"), sigA || hasEff(r[1], "sigA"), (sigR || hasEff(r[1], "sigR")) && !busy, busy, depth+1)
+			recB(n, hasEff(r[1], "sigC"), sigA || hasEff(r[1], "sigA"), (sigR || hasEff(r[1], "sigR")) && !busy, busy, rest, depth+1)
 		}
 		if sigA {
 			n := clone()
@@ -467,7 +495,7 @@ func exploreCascade(ask func(string) []string, now int64, sec []string) []cascad
 			ap := strings.TrimPrefix(r[2], "applied=")
 			if ap == "none" {
 				collect(&n, r[1], len(n.states)-1)
-				recB(n, sigC, false, sigR, busy, depth+1)
+				recB(n, sigC, false, sigR, busy, rest, depth+1)
 			} else {
 				n.final = r[0]
 				n.states = append(n.states, r[0])
@@ -481,7 +509,7 @@ func exploreCascade(ask func(string) []string, now int64, sec []string) []cascad
 						n.events = append(n.events, "ok:cfg:"+f[1])
 					}
 				}
-				recB(n, sigC || hasEff(r[1], "sigC"), true, !busy, busy, depth+1)
+				recB(n, sigC || hasEff(r[1], "sigC"), true, !busy, busy, rest, depth+1)
 			}
 		}
 		if sigR {
@@ -489,21 +517,36 @@ func exploreCascade(ask func(string) []string, now int64, sec []string) []cascad
 			r := ask(fmt.Sprintf("READONLY | %d | %s", now, n.final))
 			n.final = r[0]
 			n.states = append(n.states, r[0])
+			var revs []string
 			for _, x := range strings.Split(strings.TrimPrefix(r[1], "outs="), ";") {
 				f := strings.Split(x, ".")
 				if len(f) == 2 && f[0] == "served" {
-					n.events = append(n.events, "ok:read:"+f[1])
+					revs = append(revs, "ok:read:"+f[1])
 				} else if len(f) == 2 && f[0] == "invalid" {
-					n.events = append(n.events, "err:read:"+f[1])
+					revs = append(revs, "err:read:"+f[1])
 				}
 			}
-			served := false
-			for _, x := range n.events[len(o.events):] {
-				if strings.HasPrefix(x, "ok:read:") || strings.HasPrefix(x, "err:read:") {
-					served = true
+			// every read of the pass answered before anything else runs
+			full := n
+			full.events = append(append([]string{}, n.events...), revs...)
+			recB(full, sigC, sigA, false, len(revs) > 0, nil, depth+1)
+			// or only some of them (any non-empty proper subset: the pass walks a Go map), the others held
+			if len(revs) >= 2 && len(revs) <= 4 {
+				for mask := 1; mask < (1<<len(revs))-1; mask++ {
+					part := n
+					part.events = append([]string{}, n.events...)
+					var held []string
+					for i, ev := range revs {
+						if mask&(1<<i) != 0 {
+							part.events = append(part.events, ev)
+						} else {
+							part.events = append(part.events, "take:"+ev[strings.Index(ev, ":")+1:])
+							held = append(held, ev)
+						}
+					}
+					recB(part, sigC, sigA, false, true, held, depth+1)
 				}
 			}
-			recB(n, sigC, sigA, false, served, depth+1)
 		}
 	}
 	o := cascadeOutcome{final: sec[0], states: []string{sec[0]}}
@@ -646,6 +689,7 @@ func compareOutcome(drv *Driver, o *cascadeOutcome, post NodeSt, eff string, new
 			owner = f
 		}
 	}
+	taken := map[*lfut]bool{} // out of the pending table, held by the read-only pass: `ff` does not reach them
 	for _, ev := range o.events {
 		for _, f := range futs {
 			if f.resolvedSeen() {
@@ -654,8 +698,12 @@ func compareOutcome(drv *Driver, o *cascadeOutcome, post NodeSt, eff string, new
 			if _, ok := want[f]; ok {
 				continue
 			}
+			if ev == "take:"+keyOf(f) {
+				taken[f] = true
+				continue
+			}
 			switch {
-			case ev == "ff" && f.kind != "cfg", ev == "fcf" && f == owner:
+			case ev == "ff" && f.kind != "cfg" && !taken[f], ev == "fcf" && f == owner:
 				// only futures the model still tracks are answered; a submission refused at once is in `want` already
 				want[f] = res{true, true}
 			case ev == "ok:"+keyOf(f):
